@@ -19,6 +19,13 @@ def writtenFrames (h : H) (ty : Ty) (data : List Int) : List (List Byte) :=
 theorem wCore_lastOp (hp : H) (sp : Store) (ty : Ty) (len : Int) (data : List Int) :
     wCore (hp, sp) ty len data = wCore ({ hp with lastOp := .w }, sp) ty len data := rfl
 
+theorem TailOk.mono {h : H} {t t' : Nat} (ht : TailOk h t) (hle : t' ≤ t) : TailOk h t' := by
+  rcases ht with h0 | ⟨h1, hc⟩
+  · left; omega
+  · rcases Nat.eq_zero_or_pos t' with hz | hp
+    · left; exact hz
+    · right; exact ⟨by omega, hc⟩
+
 /-- the samples phase of a write call, from a handle positioned at its write pointer -/
 theorem RwView.wCore_refines {h : H} {s : Store} {R W F : Nat} {hdr D : List Byte} (v : RwView h s R W F hdr D)
     (hl : h.lastOp = .w) (ty : Ty) (k : Nat) (data : List Int) (hk : 0 < k) (hdata : data.length = k * h.ch) :
@@ -28,20 +35,35 @@ theorem RwView.wCore_refines {h : H} {s : Store} {R W F : Nat} {hdr D : List Byt
   have hch := v.ch_pos
   have hnb := v.nb_pos
   have hbw := v.bw_pos
+  obtain ⟨t, hb, ht⟩ := v.bytes
   unfold wCore
   simp only []
   have hlenNat : (((k * h.ch : Nat) : Int)).toNat = k * h.ch := Int.toNat_natCast _
   have htake : data.take (k * h.ch) = data := List.take_of_length_le (by omega)
-  have hpk : ∀ vals, peakUpdate { h with haveWritten := true } ty vals = none := fun vals =>
-    peakUpdate_none _ _ _ v.peak
-  rw [hlenNat, htake, hpk]
+  rw [hlenNat, htake]
+  generalize hpk : peakUpdate { h with haveWritten := true } ty data = pk'
+  have key : ∀ hh : H, hh.peak = h.peak → hh.ch = h.ch →
+      (peakUpdate hh ty data).map List.length = h.peak.map List.length := by
+    intro hh e1 e2
+    cases hp : h.peak with
+    | none => rw [hp] at e1; rw [peakUpdate_none _ _ _ e1]
+    | some ps =>
+      rw [hp] at e1
+      obtain ⟨ps', e, l⟩ := peakUpdate_some hh ty data ps e1 (by rw [e2]; exact (v.peak ps hp).1)
+      rw [e]
+      show some ps'.length = some ps.length
+      rw [l, e2, (v.peak ps hp).1]
+  have hpkl : pk'.map List.length = h.peak.map List.length := by
+    rw [← hpk]; exact key _ rfl rfl
   generalize henc : h.enc.encodeAll h.conv ty data = enc
   have hel : enc.length = k * h.bw := by
     rw [← henc, Enc.encodeAll_length, hdata]; unfold H.bw; rw [Nat.mul_assoc, Nat.mul_comm h.ch]
   have hfs : (writtenFrames h ty data).length = k := by
     unfold writtenFrames; rw [henc, groups_length' _ hbw, hel, Nat.mul_div_cancel _ hbw]
-  have hwr : s.write enc = { bytes := hdr ++ writeAt D (W * h.bw) enc, pos := hdr.length + (W + k) * h.bw } := by
-    rw [write_nonempty _ _ (by rw [hel]; exact Nat.mul_pos hk hbw), v.syncW hl, v.bytes, ← v.hlen, writeAt_append, hel]
+  generalize ht' : t - (W * h.bw + enc.length - D.length) = t'
+  have hwr : s.write enc = { bytes := hdr ++ (writeAt D (W * h.bw) enc ++ zeros t'), pos := hdr.length + (W + k) * h.bw } := by
+    rw [write_nonempty _ _ (by rw [hel]; exact Nat.mul_pos hk hbw), v.syncW hl, hb, ← v.hlen, writeAt_append,
+      writeAt_zeros_tail, ht', hel]
     congr 1; rw [Nat.add_mul]; omega
   rw [hwr]
   have hdiv : ((k * h.ch : Nat) : Int) / (h.ch : Int) = (k : Int) := by
@@ -52,24 +74,24 @@ theorem RwView.wCore_refines {h : H} {s : Store} {R W F : Nat} {hdr D : List Byt
     rcases Nat.le_total F (W + k) with hle | hle
     · rw [Nat.max_eq_right hle, Nat.max_eq_right (Nat.mul_le_mul_right _ hle)]
     · rw [Nat.max_eq_left hle, Nat.max_eq_left (Nat.mul_le_mul_right _ hle)]
+  generalize hS2 : ({ bytes := hdr ++ (writeAt D (W * h.bw) enc ++ zeros t'), pos := hdr.length + (W + k) * h.bw } : Store) = S2
   -- the handle before the automatic header update
-  have vw : ∀ (fr : Int) (de : Int), fr = ((max F (W + k) : Nat) : Int) → de = 0 →
-      RwView { h with haveWritten := true, wpos := (W : Int) + (k : Int), lastOp := .w, peak := none, frames := fr, dataend := de }
-        { bytes := hdr ++ writeAt D (W * h.bw) enc, pos := hdr.length + (W + k) * h.bw } R (W + k) (max F (W + k)) hdr
-        (writeAt D (W * h.bw) enc) := by
+  have vw : ∀ (fr : Int) (de : Int), fr = ((max F (W + k) : Nat) : Int) → (h.container ≠ .wav → de = 0) →
+      RwView { h with haveWritten := true, wpos := (W : Int) + (k : Int), lastOp := .w, peak := pk', frames := fr, dataend := de }
+        S2 R (W + k) (max F (W + k)) hdr (writeAt D (W * h.bw) enc) := by
     intro fr de hfr hde
-    exact v.rebuild _ _ R (W + k) (max F (W + k)) hdr _ rfl rfl rfl rfl v.peak.symm hde rfl rfl rfl v.rpos
-      (by simp) hfr rfl rfl hDl (by simp) (fun _ => rfl) (fun hc => by simp at hc)
+    subst hS2
+    exact v.rebuild _ _ R (W + k) (max F (W + k)) hdr _ rfl rfl rfl rfl hpkl hde rfl rfl rfl v.rpos
+      (by simp) hfr ⟨t', rfl, ht.mono (by omega)⟩ rfl hDl (by simp) (fun _ => rfl) (fun hc => by simp at hc)
   have habs : groups h.bw (writeAt D (W * h.bw) enc) =
       AbsFile.upTo (zeroFrame h.bw) (groups h.bw D) W ++ groups h.bw enc ++ (groups h.bw D).drop (W + k) :=
     groups_writeAt _ hbw D enc F W k v.dlen hel
   have hne : writtenFrames h ty data ≠ [] := by
     intro hc; rw [hc] at hfs; simp at hfs; omega
-  have hfinal : ∀ (hh : H) (_ : RwView hh { bytes := hdr ++ writeAt D (W * h.bw) enc, pos := hdr.length + (W + k) * h.bw }
-      R (W + k) (max F (W + k)) hdr (writeAt D (W * h.bw) enc)), hh.bw = h.bw → hh.ch = h.ch →
-      ∃ h' s', (if hh.autoHeader = true ∧ (hh.container != Container.raw) = true then
-          Sf.writeHeader hh { bytes := hdr ++ writeAt D (W * h.bw) enc, pos := hdr.length + (W + k) * h.bw } true
-          else (hh, { bytes := hdr ++ writeAt D (W * h.bw) enc, pos := hdr.length + (W + k) * h.bw })) = (h', s') ∧
+  have hfinal : ∀ (hh : H) (_ : RwView hh S2 R (W + k) (max F (W + k)) hdr (writeAt D (W * h.bw) enc)), hh.bw = h.bw →
+      hh.ch = h.ch →
+      ∃ h' s', (if hh.autoHeader = true ∧ (hh.container != Container.raw) = true then Sf.writeHeader hh S2 true
+          else (hh, S2)) = (h', s') ∧
         h'.ch = h.ch ∧ (writtenFrames h ty data).length = k ∧
         RwInv h' s' ∧ absOf h' s' = (absOf h s).write (zeroFrame h.bw) (writtenFrames h ty data) := by
     intro hh vv ebw ech
@@ -85,7 +107,7 @@ theorem RwView.wCore_refines {h : H} {s : Store} {R W F : Nat} {hdr D : List Byt
     unfold writtenFrames; rw [henc]
   by_cases hgt : (W : Int) + (k : Int) > (F : Int)
   · simp only [hgt, if_true]
-    exact hfinal _ (vw _ _ (by omega) rfl) rfl rfl
+    exact hfinal _ (vw _ _ (by omega) (fun _ => rfl)) rfl rfl
   · simp only [hgt, if_false]
     exact hfinal _ (vw _ _ (by omega) v.dataend) rfl rfl
 
@@ -95,6 +117,7 @@ theorem RwView.write_refines {h : H} {s : Store} {R W F : Nat} {hdr D : List Byt
       o.ret = callCount h fc k ∧ o.err = 0 ∧ (writtenFrames h ty data).length = k ∧
       RwInv h' s' ∧ absOf h' s' = (absOf h s).write (zeroFrame h.bw) (writtenFrames h ty data) := by
   have hch := v.ch_pos
+  obtain ⟨t, hb, ht⟩ := v.bytes
   have hn : 0 < callCount h fc k := by
     unfold callCount; cases fc
     · simp only [Bool.false_eq_true, if_false]; exact Int.ofNat_lt.mpr (Nat.mul_pos hk hch)
@@ -107,7 +130,8 @@ theorem RwView.write_refines {h : H} {s : Store} {R W F : Nat} {hdr D : List Byt
   -- phase 1: re-seek, first-write header
   have v0 := v.setError 0
   obtain ⟨fl1, dl1, hdr1, e1, l1⟩ : ∃ fl dl hdr', wPre h s =
-      ({ h with error := 0, filelength := fl, datalength := dl }, { bytes := hdr' ++ D, pos := hdr.length + W * h.bw }) ∧
+      ({ h with error := 0, filelength := fl, datalength := dl },
+       { bytes := hdr' ++ (D ++ zeros t), pos := hdr.length + W * h.bw }) ∧
       hdr'.length = hdr.length := by
     unfold wPre
     simp only []
@@ -119,18 +143,18 @@ theorem RwView.write_refines {h : H} {s : Store} {R W F : Nat} {hdr D : List Byt
     rw [hs1]
     split
     · obtain ⟨fl, dl, hdr', e, l⟩ := writeHeader_shape { h with error := 0 } { bytes := s.bytes, pos := hdr.length + W * h.bw }
-        false hdr D v.bytes v0.hlen v0.doff (by rw [← v0.hlen]; exact Nat.le_add_right _ _)
+        false hdr (D ++ zeros t) hb v0.hlen v0.doff (by rw [← v0.hlen]; exact Nat.le_add_right _ _)
       exact ⟨fl, dl, hdr', e, by rw [l, v0.hlen]⟩
-    · exact ⟨h.filelength, h.datalength, hdr, by rw [← v.bytes], rfl⟩
+    · exact ⟨h.filelength, h.datalength, hdr, by rw [← hb], rfl⟩
   rw [e1, wCore_lastOp]
   -- phase 2
   have vp : RwView { h with error := 0, filelength := fl1, datalength := dl1, lastOp := .w }
-      { bytes := hdr1 ++ D, pos := hdr.length + W * h.bw } R W F hdr1 D :=
-    v.rebuild _ _ R W F hdr1 D rfl rfl rfl rfl rfl v.dataend rfl rfl rfl v.rpos v.wpos v.frames rfl l1 v.dlen
+      { bytes := hdr1 ++ (D ++ zeros t), pos := hdr.length + W * h.bw } R W F hdr1 D :=
+    v.rebuild _ _ R W F hdr1 D rfl rfl rfl rfl rfl v.dataend rfl rfl rfl v.rpos v.wpos v.frames ⟨t, rfl, ht⟩ l1 v.dlen
       (by simp) (fun _ => rfl) (fun hc => by simp at hc)
   obtain ⟨h', s', e2, hc2, hfs, inv, habs⟩ := vp.wCore_refines rfl ty k data hk hdata
   have e2' : wCore ({ h with error := 0, filelength := fl1, datalength := dl1, lastOp := .w },
-      { bytes := hdr1 ++ D, pos := hdr.length + W * h.bw }) ty ((k * h.ch : Nat) : Int) data = (h', s') := e2
+      { bytes := hdr1 ++ (D ++ zeros t), pos := hdr.length + W * h.bw }) ty ((k * h.ch : Nat) : Int) data = (h', s') := e2
   rw [e2']
   refine ⟨h', s', _, rfl, ?_, rfl, hfs, inv, ?_⟩
   · simp only [hc2]
